@@ -12,7 +12,7 @@
    LTS of Model/Buffer.v: k and the kind of stop are the write script of the EAccept / ELeftover / ESaveWrite
    event (ws_n = Some k with or without error, ws_kill = 1..4), the position is the history before it. *)
 From SV Require Import Model.Common Model.FileWrite Model.Buffer Model.SpillFaults Spec.BufferSpec
-     Proofs.FileWriteProofs Proofs.BufferInv Proofs.BufferTheorems Proofs.BufferExamples Proofs.DrainProofs.
+     Model.ConcWrite Proofs.FileWriteProofs Proofs.ConcWriteProofs Proofs.BufferInv Proofs.BufferTheorems Proofs.BufferExamples Proofs.DrainProofs.
 
 (* Intact or not at all, for what is sent upstream.  In every reachable state - after any faults, crashes and
    restarts - a chunk offered to a consumer under an ID that was ever given to Accept on this directory carries
@@ -166,3 +166,62 @@ Theorem C04_example_damaged_recovery :
     g_dropped (st_gh s) = [n_b; n_c] /\ m_dropped (st_met s) = 2%Z /\ st_queue s = [].
 Proof. exact ex_damaged_recovery. Qed.
 Print Assumptions C04_example_damaged_recovery.
+
+(* ---------- several writers of one queue directory at once (Model/ConcWrite.v) ----------
+   Accept (spill), the consumer's OnChunkLeftover and the feeder's saveQueued / saveOutput write chunk files of the
+   same directory from different goroutines; one write is open-truncate(tmp); write; close; rename(tmp, id), and the
+   system calls of different writes interleave.  For ANY number of chunks with distinct IDs, ANY interleaving of
+   their system calls (every schedule; a goroutine writing several chunks in turn, G goroutines, the leftover /
+   saveQueued pair at shutdown are particular schedules) and at ANY moment (prefix-closed: [sched] is arbitrary):
+   under every chunk's ID there is what was there before or exactly THAT chunk's bytes; a finished write has
+   succeeded and its file holds exactly its chunk's bytes; no write fails (nothing is counted as dropped while its
+   bytes are on disk).  Required of the temporary name: injective on the IDs and never an ID ([jobs_ok]). *)
+Theorem C04_concurrent_writers_intact :
+  forall tmpf js d0, jobs_ok tmpf js -> no_dirs tmpf js d0 ->
+  forall sched, (forall j, In j sched -> In j js) ->
+  forall d p, cw_run tmpf sched (d0, pc0) = (d, p) ->
+  forall n data, In (n, data) js ->
+    (dir_get d n = dir_get d0 n \/ dir_get d n = Some (EFile data)) /\
+    (p n = 4%nat -> dir_get d n = Some (EFile data)) /\
+    p n <> 9%nat.
+Proof. exact conc_writers_intact_lemma. Qed.
+Print Assumptions C04_concurrent_writers_intact.
+
+(* ... and every write that was given its four steps ([occ n sched] = how often chunk n is scheduled) is complete:
+   it has succeeded and the file under its ID holds exactly its own bytes - whatever the other writers did meanwhile. *)
+Theorem C04_concurrent_writers_complete :
+  forall tmpf js d0, jobs_ok tmpf js -> no_dirs tmpf js d0 ->
+  forall sched, (forall j, In j sched -> In j js) ->
+  forall d p, cw_run tmpf sched (d0, pc0) = (d, p) ->
+  forall n data, In (n, data) js -> (4 <= occ n sched)%nat ->
+  p n = 4%nat /\ dir_get d n = Some (EFile data).
+Proof. exact conc_writers_complete_lemma. Qed.
+Print Assumptions C04_concurrent_writers_complete.
+
+(* ... and the temporary names of the tree (id ++ ".tmp") meet the requirement for distinct IDs accepted by a
+   matcher that rejects temporary names. *)
+Theorem C04_concurrent_writers_tmp_names :
+  forall matchf js, matcher_ok matchf ->
+  NoDup (map fst js) -> (forall n data, In (n, data) js -> matchf n = true) -> jobs_ok tmp_name js.
+Proof. exact tmp_name_jobs_ok. Qed.
+Print Assumptions C04_concurrent_writers_tmp_names.
+
+(* The variant with ONE temporary name per directory (".chunk.tmp") violates it: two chunks, the interleaving
+   open a; open b; write a; write b; close a; rename a; close b; rename b - a.ff holds b's bytes and is reported
+   saved, b's write fails (dropped) and b.ff does not exist. *)
+Theorem C04_shared_tmp_name_variant_refuted :
+  exists js sched, NoDup (map fst js) /\ (forall j, In j sched -> In j js) /\
+  exists n data other, In (n, data) js /\ In other js /\ fst other <> n /\
+    let (d, p) := cw_run shared_tmp sched ([], pc0) in
+    p n = 4%nat /\ dir_get d n = Some (EFile (snd other)) /\ snd other <> data /\
+    p (fst other) = 9%nat /\ dir_get d (fst other) = None.
+Proof. exact shared_tmp_refuted_lemma. Qed.
+Print Assumptions C04_shared_tmp_name_variant_refuted.
+
+(* Evaluation: the same two chunks and the same interleaving with the names of the tree end with both files intact. *)
+Theorem C04_example_concurrent_writers :
+  let (d, p) := cw_run tmp_name wit_sched ([], pc0) in
+  dir_get d (fst wit_a) = Some (EFile (snd wit_a)) /\ dir_get d (fst wit_b) = Some (EFile (snd wit_b)) /\
+  p (fst wit_a) = 4%nat /\ p (fst wit_b) = 4%nat.
+Proof. exact own_tmp_witness_lemma. Qed.
+Print Assumptions C04_example_concurrent_writers.
